@@ -92,9 +92,11 @@ func checkC15(rc *Run) error {
 	yqlib.InitExpressionParser()
 	maxLen := rc.Pick(3, 4)
 	type seqRow struct {
-		S, Perm  []int
-		MM       bool
-		Min, Max int
+		S, Perm    []int
+		MM         bool
+		Min, Max   int
+		NN         bool // nulls among numbers or among strings
+		MinN, MaxN int
 	}
 	type cmpRow struct {
 		A, B           int
@@ -126,7 +128,7 @@ func checkC15(rc *Run) error {
 			defer mu.Unlock()
 			switch m["t"] {
 			case "seq":
-				seqs = append(seqs, seqRow{S: ints(m["s"]), Perm: ints(m["perm"]), MM: m["mm"].(bool), Min: int(num(m["min"])), Max: int(num(m["max"]))})
+				seqs = append(seqs, seqRow{S: ints(m["s"]), Perm: ints(m["perm"]), MM: m["mm"].(bool), Min: int(num(m["min"])), Max: int(num(m["max"])), NN: m["nn"].(bool), MinN: int(num(m["minn"])), MaxN: int(num(m["maxn"]))})
 			case "long":
 				longs = append(longs, seqRow{S: ints(m["s"]), Perm: ints(m["perm"])})
 			case "cmp":
@@ -202,6 +204,19 @@ func checkC15(rc *Run) error {
 			}
 			report(kind, mapName, fmt.Sprintf("sort_by(.k) of %s: specification order %v, yq %s %v %s", strings.TrimSpace(mdoc), wantIdx, stm, gotm, etm), M{"expr": "sort_by(.k)", "input_yaml": mdoc})
 		}
+		if r.NN && !long { // nulls among numbers / strings: null is the smallest value of the order
+			for _, mm := range []struct {
+				op  string
+				idx int
+			}{{"min", r.MinN}, {"max", r.MaxN}} {
+				root, _ := decodeYAML(yamlSeq([]string{items[mm.idx-1]}))
+				want := spelled(root.Content[0])
+				g, s, e := evalYAML(mm.op, doc)
+				if s != "ok" || len(g) != 1 || g[0] != want {
+					report(mm.op+"-with-null", mapName, fmt.Sprintf("%s of %s: specification %s, yq %s %v %s", mm.op, strings.TrimSpace(doc), want, s, g, e), M{"expr": mm.op, "input_yaml": doc})
+				}
+			}
+		}
 		if r.MM && !long {
 			for _, mm := range []struct {
 				op  string
@@ -273,7 +288,11 @@ func checkC15(rc *Run) error {
 						continue
 					}
 					if s != "ok" || len(g) != 1 || g[0] != op.want {
-						report("compare:"+op.sym, nm, fmt.Sprintf("%s %s %s: specification %s, yq %s %v %s", a, op.sym, b, op.want, s, g, e), M{"expr": ".[0] " + op.sym + " .[1]", "input_yaml": doc})
+						kindC := "compare:"
+						if c.A == 1 || c.B == 1 { // position 1 of D is null
+							kindC = "compare-with-null:"
+						}
+						report(kindC+op.sym, nm, fmt.Sprintf("%s %s %s: specification %s, yq %s %v %s", a, op.sym, b, op.want, s, g, e), M{"expr": ".[0] " + op.sym + " .[1]", "input_yaml": doc})
 					}
 				}
 			})
